@@ -47,6 +47,7 @@ def random_case(prop, rng, tier):
              'bar': rng.random() < 0.2, 'net': rng.random() < 0.2}
         # a dated task of another project: links to it leave the rendered WBS (it has no line / entry of its own, the link stays)
         t['outside'] = bool(i) and t['parent'] is None and rng.random() < 0.12
+        t['clash'] = rng.random() < 0.1
         tasks.append(t)
     ids = set()
     for t in tasks:
@@ -82,6 +83,9 @@ def build(case):
             kw['gantt_text_style'] = {'color': 'white'}
         if t['net']:
             kw['network_bar_style'] = {'fill': '#f9f', 'stroke': '#333'}
+        if t.get('clash'):
+            # free-form user attributes that happen to be named like keys of a rendered entry: they must not replace what is computed
+            kw.update({'text': 'see ticket #42', 'progress': '150%', 'type': 'story', 'open': 'no', 'start_date': 'tbd'})
         o = Task(t['id'], t['name'], start=st, end=st + timedelta(hours=0 if t['milestone'] else t['dur']), milestone=t['milestone'],
                  estimate=t['estimate'], spent=t['spent'], **kw)
         if t['parent'] is None:
